@@ -64,6 +64,10 @@ const (
 	MaxFrameSize = 1024 * 1024 // 1MB frames
 	// TargetFrameSize optimal frame size for network efficiency
 	TargetFrameSize = 16 * 1024 // 16KB frames
+	// frameCryptoReserve is the room a frame must leave for the AES-GCM tag (16)
+	// and, on the first protected frame of a direction, the IV (16): the peer
+	// limits the wire length of a frame to MaxFrameSize.
+	frameCryptoReserve = 32
 )
 
 // CodingDirection represents the stream direction (encode vs decode)
@@ -170,6 +174,16 @@ func NewMessageForStream(stream StreamInterface) *Message {
 		isEOM:     false,
 		finished:  false,
 	}
+}
+
+// maxChunkSize is the most payload the typed layer puts into one frame: on an
+// encrypting stream it leaves room for the tag and IV so that the frame the
+// stream produces still fits the peer's MaxFrameSize limit on the wire length.
+func (m *Message) maxChunkSize() int {
+	if m.stream.IsEncrypted() {
+		return MaxFrameSize - frameCryptoReserve
+	}
+	return MaxFrameSize
 }
 
 // ensureData ensures there's enough data in the buffer for the requested read
@@ -569,8 +583,8 @@ func (m *Message) PutString(ctx context.Context, s string) error {
 		needed += 8 // int32 length prefix (stored as int64)
 	}
 
-	// For very large strings that exceed MaxFrameSize, handle specially
-	if needed > MaxFrameSize {
+	// For very large strings that do not fit one frame, handle specially
+	if needed > m.maxChunkSize() {
 		// Flush current frame if it has data
 		if m.buffer.Len() > 0 {
 			if err := m.FlushFrame(ctx, false); err != nil {
@@ -629,7 +643,7 @@ func (m *Message) PutStringBytes(ctx context.Context, b []byte) error {
 
 	// Large strings: flush, write the (encrypted) length prefix, then stream b and
 	// the null terminator via PutBytes (which splits across frames).
-	if needed > MaxFrameSize {
+	if needed > m.maxChunkSize() {
 		if m.buffer.Len() > 0 {
 			if err := m.FlushFrame(ctx, false); err != nil {
 				return err
@@ -675,8 +689,8 @@ func (m *Message) PutBytes(ctx context.Context, data []byte) error {
 		return nil // No data to write
 	}
 
-	// If the data is larger than MaxFrameSize, we need to split it
-	if length > MaxFrameSize {
+	// If the data does not fit one frame, we need to split it
+	if length > m.maxChunkSize() {
 		// Split large data across multiple frames
 		offset := 0
 		for offset < length {
@@ -689,7 +703,7 @@ func (m *Message) PutBytes(ctx context.Context, data []byte) error {
 
 			// Determine how much to write in this frame
 			remaining := length - offset
-			chunkSize := MaxFrameSize
+			chunkSize := m.maxChunkSize()
 			if remaining < chunkSize {
 				chunkSize = remaining
 			}
